@@ -23,7 +23,7 @@ DELIVERABLES in %(d)s:
  - patch.diff  : `git -C %(d)s/repo diff > %(d)s/patch.diff`
  - demo.py     : a standalone script, run as `/venv/bin/python %(d)s/demo.py <path-to-a-repo-tree>`, that exits 1 and prints what went wrong when the property is violated, and exits 0 on the unmodified tree. It must put <path-to-a-repo-tree> first on sys.path and import `supybot` from there.
  - meta.json   : {"property": "%(id)s", "change": "...what the change does...", "needs": "...what it needs in order to manifest...", "ran": ["commands you ran and what they showed"]}
-Verify yourself before finishing: demo.py exits 1 against %(d)s/repo with your change, exits 0 against the same tree after `git -C %(d)s/repo stash` (then `git stash pop`), and the pytest pass count is unchanged with the change applied.
+Verify yourself before finishing: demo.py exits 1 against %(d)s/repo with your change, exits 0 against the same tree after `git -C %(d)s/repo apply -R %(d)s/patch.diff` (then re-apply with `git -C %(d)s/repo apply %(d)s/patch.diff`; do NOT use git stash: the stash is shared between worktrees), and the pytest pass count is unchanged with the change applied.
 
 How to run real bot code outside pytest (needed by demo.py): chdir to a fresh temporary directory (never run from inside the repo: it would write conf/data/logs there); `sys.path.insert(0, repo)` (package `supybot` is the symlink repo/supybot -> src); write a registry file containing `supybot.directories.data/conf/log/backup: <tmp>/...`, `supybot.networks.test.server: should.not.need.this`, `supybot.nick: test`, `supybot.reply.whenAddressedBy.chars: @`, `supybot.protocols.irc.throttleTime: 0`, `supybot.log.stdout: False`; call `supybot.registry.open_registry(fn)` BEFORE importing `supybot.conf`/`log`/`ircdb`; then `conf.supybot.flush.setValue(False)`, `conf.supybot.directories.plugins.setValue([repo + '/plugins'])`; keep `world.testing = log.testing = False` (otherwise capability checks grant everything and the firewall re-raises). A live bot: `irc = irclib.Irc('test')`, give it a stub driver object with `reconnect(*a, **k)` and `die()`, drain `irc.takeMsg()`, load plugins with `plugin.loadPluginClass(irc, plugin.loadPluginModule(name))` (Owner first, then Misc, Config, User, ...), feed with `irc.feedMsg(ircmsgs.privmsg(to, text, prefix=frm))`. A SocketDriver can be built with `__new__` plus a fake `conn` object. Many properties need no live bot at all (pure functions/classes can be imported and called directly).
 
